@@ -163,6 +163,17 @@ def sub_cosim(rep, tier, mod, model, nq, nt, extra=(), timeout=3000):
         out, err, rc = r.stdout, r.stderr, r.returncode
     except subprocess.TimeoutExpired as e:
         out, err, rc = (e.stdout or b"").decode("utf8", "replace") if isinstance(e.stdout, bytes) else (e.stdout or ""), "timeout", 124
+    if not (rc == 0 and "RESULT: FAIL" not in out):
+        # the scripts carry per-sample alarms and coverage conditions that a loaded machine can
+        # trip; a disagreement between model and code is deterministic in the seed: run once more
+        try:
+            r2 = subprocess.run([common.PY, "-m", "fv." + mod, "--seed", str(rep.seed), "--n", str(n)] + list(extra),
+                                cwd=common.VERIF, capture_output=True, text=True, timeout=timeout)
+            if r2.returncode == 0 and "RESULT: FAIL" not in r2.stdout:
+                rep.notes.append("%s: first run failed (exit %s), the repeat with the same seed passed: load-dependent alarm, not a disagreement" % (mod, rc))
+                out, err, rc = r2.stdout, r2.stderr, 0
+        except subprocess.TimeoutExpired:
+            pass
     tail = [l for l in out.splitlines() if l.strip()][-8:]
     rep.coverage[mod] = {"n": n, "seconds": round(time.time() - t0, 1), "tail": [l[:200] for l in tail]}
     rep.coverage["cosim_cases"] = int(rep.coverage.get("cosim_cases", 0)) + n
